@@ -346,5 +346,35 @@ def r8_consumer_total_over_statuses(chk: Check) -> None:
                       h.loc(arm))
 
 
+def r9_probe_total(chk: Check) -> None:
+    chk.rule("C11.R9", "TOTAL(probing phase between PhaseStarted and PhaseFinished): whatever the probe's network call raises is turned into a probe result - a non-RequestException (OSError for a missing CA bundle given with --tls-verify / a client certificate that cannot be read) otherwise escapes the executor after PhaseStarted(probing): no PhaseFinished, no EngineFinished", floor=1)
+    P = chk.project
+    from ..cfg import handler_classes
+    from ..loader import ancestors
+
+    send = P.func("engine/phases/probes.py:send")
+    ex = P.func("engine/phases/probes.py:execute")
+    net = [c for c in body_calls(send) if isinstance(c.func, ast.Attribute) and c.func.attr in ("send", "request") and "session" in unparse(c.func.value)]
+    if not net:
+        chk.undecided("C11.R9", send, "network call of the probe", "not found", send.loc())
+        return
+    caught: set[str] = set()
+    for a in ancestors(net[0]):
+        if isinstance(a, ast.Try) and any(is_within(net[0], s_) for s_ in a.body):
+            caught |= {cl.rsplit(".", 1)[-1] for h in a.handlers for cl in handler_classes(h)}
+    runs = [c for c in body_calls(ex) if isinstance(c.func, ast.Name) and c.func.id == "run"]
+    for r in runs:
+        for a in ancestors(r):
+            if isinstance(a, ast.Try) and any(is_within(r, s_) for s_ in a.body):
+                caught |= {cl.rsplit(".", 1)[-1] for h in a.handlers for cl in handler_classes(h)}
+    construct = "every exception of the probe's network call becomes a probe outcome"
+    if caught & {"Exception", "BaseException"}:
+        chk.ok("C11.R9", send, construct, f"handlers: {sorted(caught)}", send.loc(net[0]))
+    else:
+        chk.violation("C11.R9", send, construct,
+                      f"only {sorted(caught)} are handled around `{unparse(net[0], 40)}`: `--tls-verify <missing file>` with an https base URL raises OSError before connecting; it escapes `probes.execute` after PhaseStarted(probing) - the stream ends without PhaseFinished and EngineFinished and the CLI shows `Test Execution Error ... please report`",
+                      send.loc(net[0]))
+
+
 def rules(tier: str) -> list:  # type: ignore[type-arg]
-    return [r1r2_grammar, r2b_state_machine_hooks, r3_ids, r4_status, r5_phase_dispatch, r7_drain, r8_consumer_total_over_statuses]
+    return [r1r2_grammar, r2b_state_machine_hooks, r3_ids, r4_status, r5_phase_dispatch, r7_drain, r8_consumer_total_over_statuses, r9_probe_total]
